@@ -259,7 +259,8 @@ def stakeTally (e : Env) (g : State) (p : Proposal) (claimDenominator : Int) : B
 
 /-- `SecurityTally`: one certifier one vote; returns pass, endVoting, result -/
 def securityTally (g : State) (c : Cert.State) (p : Proposal) : Bool × Bool × Tally :=
-  let mine := g.votes.filter (fun v => v.pid == p.id && v.option != 0)
+  -- only the certifiers in office when the round is tallied have a vote (a vote cast by a certifier removed since is skipped)
+  let mine := g.votes.filter (fun v => v.pid == p.id && v.option != 0 && Cert.isCertifier c v.voter)
   let r := mine.foldl (fun (r : Results) v => r.addTo v.option Dec.one) ({} : Results)
   let n := c.certifiers.length
   let tp := g.params.security
